@@ -6,7 +6,10 @@ from . import common, gensched, seqcheck
 CONCDRIVER = os.path.join(common.OCAML, "concdriver")
 
 
-def run_cases(vh, cases, workdir, tag="sched"):
+CI_STATS = dict(steps=0, gi_failures=0, pc_failures=0, first=None)
+
+
+def run_cases(vh, cases, workdir, tag="sched", ci=False):
     cp = os.path.join(workdir, tag + ".cases")
     gensched.write_cases(cases, cp)
     go_obs = os.path.join(workdir, tag + ".go.obs")
@@ -14,9 +17,17 @@ def run_cases(vh, cases, workdir, tag="sched"):
     r = common.run(["timeout", "1800", vh, "sched", cp, go_obs])
     if r.returncode != 0:
         raise RuntimeError("go harness (sched) failed: rc=%d %s ... %s" % (r.returncode, (r.stdout + r.stderr)[:1500], (r.stdout + r.stderr)[-1500:]))
-    r = common.run(["timeout", "3600", CONCDRIVER, cp, go_obs, mo_obs])
+    r = common.run(["timeout", "3600", CONCDRIVER, cp, go_obs, mo_obs] + (["gi"] if ci else []))
     if r.returncode != 0:
         raise RuntimeError("model driver (sched) failed: " + (r.stdout + r.stderr)[-2000:])
+    m = re.search(r"model_ci_steps (\d+) model_gi_failures (\d+) model_pc_failures (\d+)", r.stdout)
+    if m:
+        CI_STATS["steps"] += int(m.group(1))
+        CI_STATS["gi_failures"] += int(m.group(2))
+        CI_STATS["pc_failures"] += int(m.group(3))
+        bad = re.search(r"PCBAD.*", r.stdout)
+        if bad and not CI_STATS["first"]:
+            CI_STATS["first"] = bad.group(0)[:600]
     return parse_runs(go_obs), parse_runs(mo_obs)
 
 
